@@ -155,6 +155,23 @@ func (bc *boundsCtx) term(v ssa.Value) lterm {
 	if n, ok := bc.names[v]; ok {
 		return lterm{n, 0}
 	}
+	// two loads of the same integer field through the same access path name the same term (no store to that field in
+	// this function in between is assumed - see the trusted base; a function that stores the field gets no such equality)
+	if ld, ok := v.(*ssa.UnOp); ok && ld.Op == token.MUL && intBits(ld.Type()) > 0 {
+		if fa, ok := ld.X.(*ssa.FieldAddr); ok {
+			if ap := accessPath(ld, bc.getters, 0); ap != "" && !bc.storesField(fa) {
+				n := "fld:" + ap
+				bc.names[v] = n
+				if isUnsigned(ld.Type()) {
+					bc.z.addLE(lconst(0), lterm{n, 0})
+					if b := intBits(ld.Type()); b < 63 {
+						bc.z.addLE(lterm{n, 0}, lconst(int64(1)<<uint(b)-1))
+					}
+				}
+				return lterm{n, 0}
+			}
+		}
+	}
 	switch x := v.(type) {
 	case *ssa.BinOp:
 		switch x.Op {
@@ -965,4 +982,18 @@ func (bc *boundsCtx) installPhiPass() {
 			}
 		}
 	})
+}
+
+// storesField: the function under analysis stores to the same field (of any base) somewhere.
+func (bc *boundsCtx) storesField(fa *ssa.FieldAddr) bool {
+	f, _ := fieldAddr(fa)
+	found := false
+	eachInstr(bc.fn, func(_ *ssa.BasicBlock, _ int, in ssa.Instruction) {
+		if st, ok := in.(*ssa.Store); ok {
+			if g, _ := fieldAddr(st.Addr); g == f {
+				found = true
+			}
+		}
+	})
+	return found
 }
